@@ -48,6 +48,36 @@ var billCalcNamed = map[string]string{
 	"tax.Total":      "GoblVerif.Calc.TaxTotal",
 }
 
+// B20: bill/line_calculate.go's error-returning functions.  Named types and
+// primitives of the bill configuration only (PayCalcSrc keeps billCalcNamed /
+// billCalcPrims as they were).
+func billCalcNamedB20() map[string]string {
+	m := map[string]string{"currency.ExchangeRate": "GoblVerif.Calc.XRate"}
+	for k, v := range billCalcNamed {
+		m[k] = v
+	}
+	return m
+}
+
+func billCalcPrimsB20() map[string]string {
+	m := map[string]string{
+		// currency.Convert(rates, from, to, amount): MatchExchangeRate + ExchangeRate.Convert, Model/CalcSrc.lean
+		"currency.Convert": "GoblVerif.CalcSrc.convertRates o sub {0} {1} {2} {3}",
+		"strconv.Itoa":     "(toString {0})",
+	}
+	for k, v := range billCalcPrims {
+		m[k] = v
+	}
+	return m
+}
+
+var billCalcStubs = map[string]string{
+	"fmt":                            "package fmt\nfunc Errorf(format string, a ...any) error\n",
+	"errors":                         "package errors\nfunc New(text string) error\n",
+	"strconv":                        "package strconv\nfunc Itoa(i int) string\n",
+	"github.com/invopop/validation":  "package validation\ntype Errors map[string]error\nfunc (es Errors) Error() string\n",
+}
+
 var billCalcPrims = map[string]string{
 	"num.Amount.Multiply":       "o.mul {0} {1}",
 	"num.Amount.Rescale":        "o.rescale {0} {1}",
@@ -94,21 +124,28 @@ func billCalcSrcConfig() *G2LConfig {
 			"LineDiscount": {Lean: "LineDiscount", Emit: true, Deriving: []string{"Repr", "Inhabited", "DecidableEq"}, Fields: map[string]string{
 				"Key": "-", "Code": "-", "Reason": "-", "Ext": "-"}},
 			"org.Item": {Lean: "Item", Emit: true, Deriving: []string{"Repr", "Inhabited", "DecidableEq"}, Fields: map[string]string{
-				"Name": "-", "Identities": "-", "Description": "-", "AltPrices": "-", "Unit": "-", "Origin": "-", "Ext": "-", "Meta": "-",
+				"Name": "-", "Identities": "-", "Description": "-", "Unit": "-", "Origin": "-", "Ext": "-", "Meta": "-",
 				"Ref": "-", "Key": "-", "Images": "-"}},
 			"SubLine": {Lean: "SubLine", Emit: true, Deriving: []string{"Repr", "Inhabited", "DecidableEq"}, Fields: map[string]string{
 				"Index": "-", "Identifier": "-", "Period": "-", "Order": "-", "Cost": "-", "Notes": "-"}},
 			"Line": {Lean: "Line", Emit: true, Deriving: []string{"Repr", "Inhabited", "DecidableEq"}, Fields: map[string]string{
 				"Index": "-", "Identifier": "-", "Period": "-", "Order": "-", "Cost": "-", "Notes": "-"}},
+			"currency.Amount": {Lean: "CurAmount", Emit: true, Deriving: []string{"Repr", "Inhabited", "DecidableEq"}, Fields: map[string]string{
+				"Label": "-"}},
 			"PaymentDetails": {Lean: "PaymentDetails", Emit: true, Deriving: []string{"Repr", "Inhabited"}, Fields: map[string]string{
 				"Payee": "-", "Terms": "-", "Instructions": "-"}},
 			"pay.Advance": {Lean: "GoblVerif.Calc.Advance", Fields: map[string]string{
 				"Date": "-", "Key": "-", "Ref": "-", "Grant": "-", "Description": "-", "Percent": "percent", "Amount": "amount",
 				"Currency": "-", "Card": "-", "CreditTransfer": "-", "Ext": "-", "Meta": "-"}},
 		},
-		Named:       billCalcNamed,
-		NonNilElems: []string{"[]*LineDiscount", "[]*LineCharge", "[]*SubLine", "[]*Line", "[]*Discount", "[]*Charge", "[]*pay.Advance"},
-		Prims:       billCalcPrims,
+		Named:       billCalcNamedB20(),
+		NonNilElems: []string{"[]*LineDiscount", "[]*LineCharge", "[]*SubLine", "[]*Line", "[]*Discount", "[]*Charge", "[]*pay.Advance", "[]*currency.Amount", "[]*currency.ExchangeRate"},
+		Prims:       billCalcPrimsB20(),
+		Stubs:       billCalcStubs,
+		// go2lean_errfn.go: functions whose only result is `error` are Except-valued
+		ErrType: "GoblVerif.CalcSrc.GoErr",
+		ErrMsg:  "GoblVerif.CalcSrc.GoErr.msg {0}",
+		ErrAt:   "GoblVerif.CalcSrc.GoErr.at {0} {1}",
 		EffPrims: map[string]string{
 			"pay.Advance.CalculateFrom": "GoblVerif.Generated.PayCalcSrc.Advance_CalculateFrom o sub {0} {1}",
 		},
@@ -134,6 +171,10 @@ func billCalcSrcConfig() *G2LConfig {
 			{Name: "Totals.round", InOut: []string{"t"}},
 			{Name: "PaymentDetails.calculateAdvances", InOut: []string{"p"}},
 			{Name: "PaymentDetails.totalAdvance", InOut: []string{"p"}},
+			{Name: "calculateLineItemPrice", InOut: []string{"item"}},
+			{Name: "calculateSubLine", InOut: []string{"sl"}},
+			{Name: "calculateLine", InOut: []string{"l"}},
+			{Name: "calculateLines", InOut: []string{"lines"}},
 		},
 	}
 }
